@@ -222,6 +222,24 @@ class Ctx:
             raise Inconclusive("driver failed rc=%d: %s\n%s" % (p.returncode, " ".join(cmd), p.stdout[-4000:]))
         return p.stdout
 
+    def run_sharded(self, binp, scs, args, shards=6, name="trace", timeout=3600):
+        """Runs a driver over the scenarios in parallel shards. Returns (trace prefix, merged summary)."""
+        import concurrent.futures
+        shards = max(1, min(shards, len(scs)))
+        parts = [scs[i::shards] for i in range(shards)]
+        prefix = os.path.join(self.work, name + ".ndjson")
+
+        def one(i):
+            sp = self.write_scenarios(parts[i], "scenarios_%s_%02d.ndjson" % (name, i))
+            summ = os.path.join(self.work, "summary_%s_%02d.json" % (name, i))
+            self.run([binp, "-scenarios", sp, "-trace", "%s.s%02d" % (prefix, i), "-summary", summ] + list(args), timeout=timeout)
+            with open(summ) as f:
+                return json.load(f)
+
+        with concurrent.futures.ThreadPoolExecutor(max_workers=shards) as ex:
+            sums = list(ex.map(one, range(shards)))
+        return prefix, merge_summaries(sums)
+
     # ---------------------------------------------------------- scenarios
     def write_scenarios(self, scs, name="scenarios.ndjson"):
         p = os.path.join(self.work, name)
@@ -289,6 +307,30 @@ class Ctx:
             json.dump(ev, f, indent=1)
         log("%s %s: %s in %.0fs" % (self.id, self.tier, "VIOLATED" if fresh else "held on everything explored", time.time() - self.t0))
         return 1 if fresh else 0
+
+
+def merge_summaries(sums):
+    out = {}
+    for s in sums:
+        for k, v in s.items():
+            if isinstance(v, bool):
+                out[k] = out.get(k, False) or v
+            elif isinstance(v, (int, float)):
+                out[k] = out.get(k, 0) + v
+            elif isinstance(v, dict):
+                d = out.setdefault(k, {})
+                for kk, vv in v.items():
+                    if isinstance(vv, (int, float)):
+                        d[kk] = d.get(kk, 0) + vv
+                    else:
+                        d[kk] = vv
+            elif isinstance(v, list):
+                out.setdefault(k, [])
+                if len(out[k]) < 3:
+                    out[k] += v[:3 - len(out[k])]
+            else:
+                out[k] = v
+    return out
 
 
 def load_known():
